@@ -925,19 +925,38 @@ func lemmaTypedGettersAgreeOnFound(st *SlimTrie, key string) (bool, bool, bool, 
 
 //@ func (*SlimTrie).init
 //@   property C05 C07
-//@   assume-dep helper (initVars/initLevels); writes st.vars and st.levels only (frame decided by framecheck)
+//@   opt kinds=post,frame
+//@   requires st != nil && st.inner != nil
 //@   modifies st.vars, st.levels
-//@   allocates
+//@   ensures st.vars != nil && fresh(st.vars)
 
 //@ func before000512InnerPrefixTobitstr
 //@   property C06
 //@   assume-dep legacy conversion; rewrites st.inner.InnerPrefixes.Bytes in place, memory decoded in this call (frame decided by framecheck; behaviour bounded-checked on the archived streams)
 //@   allocates
 
+// before000512FixLeafSize (streams older than 0.5.12 carry only the leaf bytes): VERIFIED. When the presence bitmap is
+// missing the leaf array is rebuilt as a dense fixed-size array: element size from the encoder, element count
+// len(Bytes)/size, a presence bitmap of exactly ceil(count/64) words carrying its rank index. Otherwise nothing changes.
+// Precondition (checked at its call site in Unmarshal only as far as Unmarshal's own contract goes): the encoder reports an
+// element size >= 1 for nil (a size-0 encoder with a non-empty legacy leaf array divides by zero).
 //@ func before000512FixLeafSize
-//@   property C06
-//@   assume-dep legacy conversion of the leaf array header (frame decided by framecheck; behaviour bounded-checked)
-//@   allocates
+//@   property C06 C14
+//@   requires st != nil && st.inner != nil
+//@   requires st.inner.Leaves != nil && st.inner.Leaves.PresenceBM == nil ==> len(st.inner.Leaves.Bytes) <= 1000000000 && st.encoder != nil && 1 <= encsize0(st.encoder) && encsize0(st.encoder) <= 1000000000
+//@   panics st.inner.Leaves != nil && st.inner.Leaves.PresenceBM == nil && st.inner.Leaves.FixedSize != 0
+//@   modifies st.inner.Leaves.FixedSize, st.inner.Leaves.N, st.inner.Leaves.EltCnt, st.inner.Leaves.PresenceBM
+//@   loop 1 invariant 0 <= i && i <= n && len(indexes) == int(n) && fresh(indexes) && 0 <= n && n <= 1000000000 && leaves == st.inner.Leaves && leaves != nil
+//@   loop 1 invariant forall(k, 0, int(i), int(indexes[k]) == k)
+//@   loop 1 invariant leaves.N == n && leaves.EltCnt == n && leaves.FixedSize > 0 && int(n) == len(leaves.Bytes)/int(leaves.FixedSize) && leaves.PresenceBM == nil
+//@   loop 1 decreases int(n) - int(i)
+//@   loop 1 use at(0, int(n) - 1)
+//@   ensures old(st.inner.Leaves) == nil ==> st.inner.Leaves == nil
+//@   ensures old(st.inner.Leaves) != nil && old(st.inner.Leaves.PresenceBM) != nil ==> st.inner.Leaves.PresenceBM == old(st.inner.Leaves.PresenceBM) && st.inner.Leaves.N == old(st.inner.Leaves.N) && st.inner.Leaves.FixedSize == old(st.inner.Leaves.FixedSize)
+//@   ensures old(st.inner.Leaves) != nil && old(st.inner.Leaves.PresenceBM) == nil && st.inner.Leaves.FixedSize > 0 ==>
+//@       int(st.inner.Leaves.N) == len(st.inner.Leaves.Bytes)/int(st.inner.Leaves.FixedSize) && st.inner.Leaves.EltCnt == st.inner.Leaves.N
+//@       && st.inner.Leaves.PresenceBM != nil && fresh(st.inner.Leaves.PresenceBM) && idx_r64(st.inner.Leaves.PresenceBM.Words, st.inner.Leaves.PresenceBM.RankIndex)
+//@       && len(st.inner.Leaves.PresenceBM.Words) == (int(st.inner.Leaves.N) + 63)/64
 
 //@ func before000510
 //@   property C06
